@@ -20,7 +20,7 @@ import numpy as np
 from hypothesis import given, strategies as st
 
 import jaxtyping
-from jaxtyping import AnnotationError, PyTree, Shaped, TypeCheckError, jaxtyped
+from jaxtyping import AnnotationError, Float, Float64, Inexact, Num, PyTree, Shaped, TypeCheckError, jaxtyped
 from vf import obs, sched
 from vf.core import HarnessError, Violation
 from vf.gen import calls as gc
@@ -42,13 +42,38 @@ ASSUMPTIONS = [
 ]
 
 NAMES = ["a", "b", "p"]
-ANN = {n: Shaped[np.ndarray, n] for n in NAMES}  # shared annotation objects
-ANN2 = Shaped[np.ndarray, "a b"]
-ANN_FAIL = Shaped[np.ndarray, "q1 q2 a a"]  # binds q1, q2 tentatively, then needs a == a
-PT_Q = PyTree[Shaped[np.ndarray, "?k n"], "T"]
-PT_PLAIN = PyTree[Shaped[np.ndarray, "m n"]]
-PT_NESTED = PyTree[PyTree[Shaped[np.ndarray, "?k n"]], "T"]  # the inner check runs as is_leaf of the outer flatten
-PT_NESTED_INT = PyTree[PyTree[int]]
+
+
+class AnnSet:
+    """The annotation objects (and decorated functions) a case uses, shared between its threads.  tag=None: the process-wide set;
+    otherwise every axis carries a documentation name unique to the tag ('d7=a' means exactly 'a'), so the classes are new objects
+    that no thread has checked against yet: whatever jaxtyping prepares lazily on first use happens inside the interleaving."""
+
+    def __init__(self, tag=None):
+        d = (lambda spec: spec) if tag is None else (lambda spec: " ".join(f"{m}d{tag}={b}" for m, b in ((("?", t[1:]) if t[0] == "?" else ("", t)) for t in spec.split())))
+        # dtype-specific categories (the float64 arrays used throughout belong to all of them): the dtype side of a check is in play too
+        self.ANN = {n: Float[np.ndarray, d(n)] for n in NAMES}
+        self.ANN2 = Inexact[np.ndarray, d("a b")]
+        self.ANN_FAIL = Num[np.ndarray, d("q1 q2 a a")]  # binds q1, q2 tentatively, then needs a == a
+        self.Q = Float64[np.ndarray, d("?k n")]
+        self.PT_Q = PyTree[self.Q, "T"]
+        self.PT_PLAIN = PyTree[Shaped[np.ndarray, d("m n")]]
+        self.PT_NESTED = PyTree[PyTree[self.Q], "T"]  # the inner check runs as is_leaf of the outer flatten
+        self.PT_NESTED_INT = PyTree[PyTree[int]]
+        self.FNS = {}
+        ANN, ANN2 = self.ANN, self.ANN2
+        with warnings.catch_warnings():
+            warnings.simplefilter("ignore")
+            for ck in ("typeguard", "beartype"):
+                def raw(x, y, items, runner):
+                    return runner(items, x)
+
+                raw.__annotations__ = {"x": ANN["p"], "y": ANN2, "return": ANN["p"]}
+                self.FNS[ck] = jaxtyped(typechecker=gc.checker(ck))(raw)
+
+
+SHARED = None
+_fresh_counter = [0]
 _tl = threading.local()
 
 
@@ -75,67 +100,58 @@ def bindings_text():
         _tl.buf = None
 
 
-def make_functions():
-    fns = {}
-    with warnings.catch_warnings():
-        warnings.simplefilter("ignore")
-        for ck in ("typeguard", "beartype"):
-            def raw(x: ANN["p"], y: ANN2, items, runner) -> ANN["p"]:
-                return runner(items, x)
-
-            fns[ck] = jaxtyped(typechecker=gc.checker(ck))(raw)
-    return fns
-
-
-FNS = None
-
-
-def run_items(items, out):
+def run_items(items, out, A):
     for it in items:
         k = it[0]
+        if k == "inner-ctx":
+            # a context block nested in whatever encloses the items (a decorated call, another block)
+            with jaxtyped("context"):
+                run_items(it[1], out, A)
+            out.append(f"inner-ctx-left|{bindings_text()}")
+            continue
         if k == "check":
-            v = obs.verdict(np.zeros((it[2],)), ANN[it[1]])
+            v = obs.verdict(np.zeros((it[2],)), A.ANN[it[1]])
         elif k == "check2":
-            v = obs.verdict(np.zeros((it[1], it[2])), ANN2)
+            v = obs.verdict(np.zeros((it[1], it[2])), A.ANN2)
         elif k == "fail":
-            v = obs.verdict(np.zeros((it[1], it[2], 3, 4)), ANN_FAIL)
+            v = obs.verdict(np.zeros((it[1], it[2], 3, 4)), A.ANN_FAIL)
         elif k == "pytree":
             tree = tuple(np.zeros((s, it[2])) for s in it[1])
             if it[3] is not None and len(tree) > it[3]:
                 tree = tree[: it[3]] + (np.zeros((it[1][it[3]], it[2] + 1)),) + tree[it[3] + 1 :]
-            v = obs.verdict([tree[0], {"k": tree[1:]}], PT_Q)
+            v = obs.verdict([tree[0], {"k": tree[1:]}], A.PT_Q)
         elif k == "pytree-plain":
-            v = obs.verdict([np.zeros((it[1], it[2])), (np.zeros((it[1], it[2])),)], PT_PLAIN)
+            v = obs.verdict([np.zeros((it[1], it[2])), (np.zeros((it[1], it[2])),)], A.PT_PLAIN)
         elif k == "pytree-nested":
-            v = obs.verdict([np.zeros((it[1], it[2])), (np.zeros((it[1], it[2])), [np.zeros((it[1], it[2]))])], PT_NESTED)
+            v = obs.verdict([np.zeros((it[1], it[2])), (np.zeros((it[1], it[2])), [np.zeros((it[1], it[2]))])], A.PT_NESTED)
         elif k == "pytree-nested-int":
-            v = obs.verdict([1, (2, [3, it[1]])], PT_NESTED_INT)
+            v = obs.verdict([1, (2, [3, it[1]])], A.PT_NESTED_INT)
         elif k == "q-outside":
-            v = obs.verdict(np.zeros((3, 2)), Shaped[np.ndarray, "?k n"])
+            v = obs.verdict(np.zeros((3, 2)), A.Q)
         else:
             raise AssertionError(it)
         out.append(f"{k}:{v}|{bindings_text()}")
 
 
-def run_workload(blocks):
+def run_workload(blocks, A):
     """-> transcript (list of strings)"""
     out = []
 
     def runner(items, x):
-        run_items(items, out)
+        run_items(items, out, A)
         return x
 
     for b in blocks:
         kind = b[0]
         if kind == "ctx":
             with jaxtyped("context"):
-                run_items(b[1], out)
+                run_items(b[1], out, A)
         elif kind == "top":
-            run_items(b[1], out)
+            run_items(b[1], out, A)
         elif kind == "call":
             _, ck, psize, a, bb, items, ret_ok = b
             try:
-                FNS[ck](np.zeros((psize,)), np.zeros((a, bb)), items, runner if ret_ok else (lambda items, x: (run_items(items, out), np.zeros((psize + 1,)))[1]))
+                A.FNS[ck](np.zeros((psize,)), np.zeros((a, bb)), items, runner if ret_ok else (lambda items, x: (run_items(items, out, A), np.zeros((psize + 1,)))[1]))
                 out.append("call:returned")
             except TypeCheckError as e:
                 axes, structs = obs.parse_bindings(str(e))
@@ -145,7 +161,7 @@ def run_workload(blocks):
         elif kind == "call-bad":
             _, ck, psize, a, bb = b
             try:
-                FNS[ck](np.zeros((psize,)), np.zeros((a, bb, 2)), [], runner)
+                A.FNS[ck](np.zeros((psize,)), np.zeros((a, bb, 2)), [], runner)
                 out.append("call-bad:returned")
             except TypeCheckError as e:
                 axes, structs = obs.parse_bindings(str(e))
@@ -155,23 +171,27 @@ def run_workload(blocks):
 
 
 def check_case(ctx, case):
-    global FNS
+    global SHARED
     obs.reset_state()
-    if FNS is None:
-        FNS = make_functions()
+    if SHARED is None:
+        SHARED = AnnSet()
     if not isinstance(sys.stdout, ThreadStdout):
         sys.stdout = ThreadStdout(sys.stdout)
     workloads = case["workloads"]
-    solo = [sched.run_solo(lambda w=w: run_workload(w)) for w in workloads]
-    solo2 = [sched.run_solo(lambda w=w: run_workload(w)) for w in workloads]
+    solo = [sched.run_solo(lambda w=w: run_workload(w, SHARED)) for w in workloads]
+    solo2 = [sched.run_solo(lambda w=w: run_workload(w, SHARED)) for w in workloads]
     if solo != solo2:
         raise HarnessError(f"solo runs are not reproducible: {solo} vs {solo2}")
-    fns = [(lambda w=w: run_workload(w)) for w in workloads]
+    A = SHARED
+    if case.get("fresh"):
+        _fresh_counter[0] += 1
+        A = AnnSet(_fresh_counter[0])
+    fns = [(lambda w=w: run_workload(w, A)) for w in workloads]
     if case.get("parent_context"):
         # the spawning (main) thread is itself inside a context with bindings; the workers run in copies of its
         # contextvars context; they must behave as alone, and the parent's bindings must be untouched afterwards
         with jaxtyped("context"):
-            assert isinstance(np.zeros((5,)), ANN["a"]) and isinstance(np.zeros((5, 6)), ANN2)
+            assert isinstance(np.zeros((5,)), SHARED.ANN["a"]) and isinstance(np.zeros((5, 6)), SHARED.ANN2)
             before = bindings_text()
             results, s = sched.run_interleaved(fns, [tuple(x) for x in case["segments"]], case["quantum"], copy_context=True)
             after = bindings_text()
@@ -195,7 +215,7 @@ def check_case(ctx, case):
         raise Violation("main-thread-state", case, "after the threads finished, the main thread sees bindings or a leaf label")
     ctx.extra["context_switches"] = ctx.extra.get("context_switches", 0) + len(s.switches)
     ctx.extra["switches_inside_check"] = ctx.extra.get("switches_inside_check", 0) + inside
-    ctx.note(case, inside >= 2, classes=[f"threads-{len(workloads)}", f"quantum-{case['quantum']}", f"switches-{min(len(s.switches) // 50, 10) * 50}+", f"inside-{min(inside // 20, 10) * 20}+"],
+    ctx.note(case, inside >= 2, classes=(["fresh-annotations"] if case.get("fresh") else []) + [f"threads-{len(workloads)}", f"quantum-{case['quantum']}", f"switches-{min(len(s.switches) // 50, 10) * 50}+", f"inside-{min(inside // 20, 10) * 20}+"],
              sample={"workloads": workloads, "segments": case["segments"], "quantum": case["quantum"], "switches": len(s.switches), "switches_inside_a_check": inside})
 
 
@@ -211,7 +231,7 @@ item_st = st.one_of(
     st.tuples(st.just("pytree-nested-int"), size),
     st.tuples(st.just("q-outside")),
 )
-items_st = st.lists(item_st, min_size=1, max_size=4)
+items_st = st.lists(st.one_of(item_st, item_st, item_st, st.tuples(st.just("inner-ctx"), st.lists(item_st, min_size=1, max_size=2))), min_size=1, max_size=4)
 block_st = st.one_of(
     st.tuples(st.just("ctx"), items_st),
     st.tuples(st.just("call"), st.sampled_from(["typeguard", "beartype"]), size, size, size, items_st, st.sampled_from([True, True, False])),
@@ -223,6 +243,7 @@ case_st = st.fixed_dictionaries({
     "segments": st.lists(st.tuples(st.integers(0, 2), st.sampled_from([1, 2, 3, 5, 8, 13, 21, 40, 80])), max_size=10),
     "quantum": st.sampled_from([1, 2, 3, 5, 8, 1, 2]),
     "parent_context": st.sampled_from([False, False, True]),
+    "fresh": st.sampled_from([False, True, False]),
 })
 
 
@@ -234,7 +255,7 @@ def run(ctx):
     @given(case_st)
     def cases(case):
         check_case(ctx, {"workloads": to_lists(case["workloads"]), "segments": to_lists(case["segments"]), "quantum": case["quantum"],
-                         "parent_context": case["parent_context"]})
+                         "parent_context": case["parent_context"], "fresh": case["fresh"]})
 
     ctx.hyp(cases, max_examples=ctx.n(60, 600))
 
